@@ -8,6 +8,7 @@
               it is computed by the model and printed for every case of the correspondence.
    The regexp engine [re] is universally quantified. *)
 From Verif Require Import Schema.Json Schema.Sem Schema.Encode Schema.Proofs Schema.Steps2 Schema.Main Schema.Refute.
+From Verif Require Import Schema.Refs Schema.RefsProofs Schema.RefsMain.
 From Coq Require Import List NArith ZArith Bool.
 Import ListNotations.
 
@@ -153,3 +154,62 @@ Example C13_verdict_examples :
     = [true; false; true; false; true].
 Proof. exact verdict_examples. Qed.
 Print Assumptions C13_verdict_examples.
+
+(* ---------- $ref / $defs (Schema/Refs.v): documents with named, acyclic references ---------- *)
+
+(* following the references of a document (the specification's meaning of "$ref") gives the same verdict
+   as validity of the inlined, reference-free schema - for every table of definitions and every fuel *)
+Theorem C13_ref_semantics : forall re fuel defs s j,
+  valid_r re fuel defs s j = valid re (resolve fuel defs s) j.
+Proof. exact valid_r_resolve. Qed.
+Print Assumptions C13_ref_semantics.
+
+(* the fuel suffices: in a well-formed document (entry i of the table refers to later entries only, no
+   dangling names) the inlined schema does not depend on the fuel once it is >= the number of definitions *)
+Theorem C13_ref_fuel_suffices : forall defs s, doc_ok defs s = true ->
+  forall f, length defs <= f -> resolve f defs s = resolve_doc defs s.
+Proof. exact resolve_doc_stable. Qed.
+Print Assumptions C13_ref_fuel_suffices.
+
+Theorem C13_ref_fuel_independent : forall defs, ordered defs = true ->
+  forall f f' k s, refs_in k (length defs) s = true ->
+  length defs - k <= f -> length defs - k <= f' -> resolve f defs s = resolve f' defs s.
+Proof. exact resolve_stable. Qed.
+Print Assumptions C13_ref_fuel_independent.
+
+Theorem C13_ref_valid_stable : forall re defs s, doc_ok defs s = true ->
+  forall f j, length defs <= f -> valid_r re f defs s j = valid re (resolve_doc defs s) j.
+Proof. exact valid_r_stable. Qed.
+Print Assumptions C13_ref_valid_stable.
+
+(* the main theorem for documents: the CUE produced for a well-formed document whose inlined form raises
+   no deviation class accepts exactly the instances that are valid when references are followed *)
+Theorem C13_encode_correct_doc : forall re defs s,
+  doc_ok defs s = true -> in_fragment re (resolve_doc defs s) ->
+  forall f j, length defs <= f -> encode re (resolve_doc defs s) j = valid_r re f defs s j.
+Proof. exact encode_correct_doc. Qed.
+Print Assumptions C13_encode_correct_doc.
+
+(* non-vacuity: a document with a chain of three definitions inside the fragment, both verdicts *)
+Example C13_ref_examples :
+  doc_ok ex_defs ex_root = true /\ in_fragment re0 (resolve_doc ex_defs ex_root) /\
+  valid_r re0 3 ex_defs ex_root (JStr [120%N]) = true /\
+  valid_r re0 3 ex_defs ex_root (JNum 2) = false /\
+  encode re0 (resolve_doc ex_defs ex_root) (JStr [120%N]) = true /\
+  encode re0 (resolve_doc ex_defs ex_root) (JNum 2) = false.
+Proof. exact (conj ex_doc_ok (conj ex_doc_in_fragment ex_doc_verdicts)). Qed.
+Print Assumptions C13_ref_examples.
+
+(* the bound is needed: one unit of fuel less cuts the chain and accepts an invalid instance *)
+Example C13_ref_fuel_bound_needed :
+  valid_r re0 2 ex_defs ex_root (JNum 2) = true /\ valid_r re0 3 ex_defs ex_root (JNum 2) = false.
+Proof. exact ex_fuel_too_small. Qed.
+Print Assumptions C13_ref_fuel_bound_needed.
+
+(* cyclic tables, backward and dangling references are not well-formed documents *)
+Example C13_ref_cyclic_not_wellformed :
+  doc_ok [RObj no_assertions (Some 0) no_applic] (RBool true) = false /\
+  doc_ok [RBool true; RObj no_assertions (Some 0) no_applic] (RBool true) = false /\
+  doc_ok [] (RObj no_assertions (Some 0) no_applic) = false.
+Proof. exact ex_cyclic_not_ok. Qed.
+Print Assumptions C13_ref_cyclic_not_wellformed.
